@@ -153,7 +153,7 @@ pub fn next_op(ctx: &Ctx, st: &State, rng: &mut Rng) -> Option<String> {
     let reals: Vec<VehicleIdx> = s.vehicles_iter_all().collect();
     let dummies: Vec<VehicleIdx> = s.dummy_iter().collect();
     let all: Vec<VehicleIdx> = reals.iter().chain(dummies.iter()).copied().collect();
-    let choice = if reals.len() < 2 { rng.below(25) } else { rng.below(100) };
+    let choice = if reals.len() < 2 { rng.below(25) } else { rng.below(104) };
     match choice {
         0..=17 => {
             let vt = rng.below(ntypes) as usize;
@@ -161,7 +161,7 @@ pub fn next_op(ctx: &Ctx, st: &State, rng: &mut Rng) -> Option<String> {
             if p.is_empty() {
                 return None;
             }
-            let p = with_depots(ctx, rng, p, 30);
+            let p = with_depots(ctx, rng, p, 45);
             Some(format!("spawn {} {}", vt, list_tok(p)))
         }
         18..=24 => {
@@ -205,8 +205,23 @@ pub fn next_op(ctx: &Ctx, st: &State, rng: &mut Rng) -> Option<String> {
             let kind = if rng.chance(50) { "fit" } else { "override" };
             Some(format!("{} {} {} {} {}", kind, veh_tok(p), veh_tok(r), a, b))
         }
-        77..=82 => {
-            if rng.chance(40) {
+        77..=82 | 100..=103 => {
+            // several vehicles of one rotation cycle at once (their transition updates interact)
+            let multi: Vec<Vec<VehicleIdx>> = (0..ctx.ntypes())
+                .flat_map(|vt| {
+                    s.next_day_transition_of(ctx.vt(vt))
+                        .cycles_iter()
+                        .map(|c| c.iter().collect::<Vec<VehicleIdx>>())
+                        .filter(|c| c.len() >= 2)
+                        .collect::<Vec<_>>()
+                })
+                .collect();
+            if !multi.is_empty() && rng.chance(65) {
+                let mut vs = rng.pick(&multi).clone();
+                rng.shuffle(&mut vs);
+                vs.truncate(rng.range(2, 3) as usize);
+                Some(format!("improve {}", list_tok(vs.iter().map(|v| veh_tok(*v)))))
+            } else if rng.chance(40) {
                 Some("improve all".to_string())
             } else {
                 let k = rng.range(1, reals.len().min(3) as u64) as usize;
